@@ -61,6 +61,7 @@ type TypeStmt struct {
 	P    string  `json:"p"`
 	N    string  `json:"n"`
 	Rng  string  `json:"rng"`
+	Len  string  `json:"len"`
 	En   []EnumV `json:"en"`
 	Base IdRef   `json:"base"`
 }
@@ -76,6 +77,7 @@ type Typedef struct {
 type EffType struct {
 	Base string   `json:"base"`
 	Rngs []string `json:"rngs"`
+	Lens []string `json:"lens"`
 	En   []EnumV  `json:"en"`
 	Ids  []string `json:"ids"`
 }
@@ -145,13 +147,16 @@ func renderType(sb *strings.Builder, t TypeStmt, d int) {
 	if name == "" {
 		name = "string"
 	}
-	if t.Rng == "" && len(t.En) == 0 && t.Base.N == "" {
+	if t.Rng == "" && t.Len == "" && len(t.En) == 0 && t.Base.N == "" {
 		fmt.Fprintf(sb, "%stype %s;\n", ind(d), name)
 		return
 	}
 	fmt.Fprintf(sb, "%stype %s {\n", ind(d), name)
 	if t.Rng != "" {
 		fmt.Fprintf(sb, "%srange %q;\n", ind(d+1), t.Rng)
+	}
+	if t.Len != "" {
+		fmt.Fprintf(sb, "%slength %q;\n", ind(d+1), t.Len)
 	}
 	if t.Base.N != "" {
 		b := t.Base.N
@@ -329,11 +334,12 @@ func toNodes(kids []PNode, parentCfg bool, parentName string, path string, in *i
 		case "again":
 			continue
 		}
-		n := Node{K: k.K, N: k.N, Mand: k.Mand == "true", Desc: k.Desc, Keys: k.Keys, C: []Node{}, Units: k.Units, Et: EffType{Rngs: []string{}, En: []EnumV{}, Ids: []string{}}}
+		n := Node{K: k.K, N: k.N, Mand: k.Mand == "true", Desc: k.Desc, Keys: k.Keys, C: []Node{}, Units: k.Units, Et: EffType{Rngs: []string{}, Lens: []string{}, En: []EnumV{}, Ids: []string{}}}
 		if k.Type != nil {
 			n.Et.Base = strings.TrimSuffix(k.Type.Format, "-list")
 			n.Et.Rngs = append(n.Et.Rngs, k.Type.Ranges...)
 			n.Et.Ids = append(n.Et.Ids, k.Type.Bases...)
+			n.Et.Lens = append(n.Et.Lens, k.Type.Lengths...)
 			for _, e := range k.Type.Enums {
 				if i := strings.LastIndexByte(e, '='); i > 0 {
 					v := 0
